@@ -54,6 +54,18 @@ CLAIMED = {
             "mode is tested per entry with an exact Poisson tail test over 200 seeds (p < 1e-10) plus pooled variance / "
             "zero-class / neighbour-correlation statistics; termination is a step bound (H2), reproducibility is bitwise.",
             "5 (C14)"),
+    "C04": ("Physical results do not depend on the units used to state or report them",
+            "metamorphic twin episodes: one physical spec under 2-4 independent unit renderings run on the real engine; "
+            "histories compared in SI with each other and with the reference Euler model",
+            "Seeded exploration of unit renderings at every nesting level (inherit / default / explicit, bare numbers or "
+            "explicit-unit strings incl. litre and molar families, scrambled declarations, different output units). This is "
+            "a metamorphic relation between simulated histories, not a fault search: the schedule is fixed.", "5 (C04)"),
+    "C07": ("Stochastic engines take only legal steps, at the rates of the master equation",
+            "per-step legality of every Gillespie step against a static table of masked event effects; waiting-time and "
+            "event-class martingales; tau-leap conditional-moment martingales; statistics pooled per case and per run",
+            "Seeded exploration: the legality oracle is exact; the statistical oracles are deterministic functions of the seed "
+            "with thresholds of 6.5 sigma (KS 3.3), so a pass or failure is exactly repeatable. Power: single cases see "
+            "propensity errors of ~5-10%, the pooled statistics of the quick tier ~2%, the thorough tier below 1%.", "5 (C07)"),
 }
 
 NA = {
